@@ -81,7 +81,9 @@ func (e *Engine) registrations() []regRow {
 			continue
 		}
 		name := fn.String()
-		if !strings.Contains(name, "spine.CreateFunctionData") {
+		// any function of package spine that registers function data (the factory has been refactored
+		// before; the registrations are recognised by the createFunctionData[T, F](<function name>) calls)
+		if !strings.Contains(name, "spine-go/spine.") {
 			continue
 		}
 		for _, b := range fn.Blocks {
